@@ -616,3 +616,76 @@ func ZZHarnessContributionFlow() {
 	}
 	zzReach("end")
 }
+
+// ZZHarnessContributionTwoDuties (C03): duty A (slot 3) runs to its post-consensus signatures; duty B (a later slot)
+// starts, collects its selection proofs and its instance decides. The value decided for B is any list of
+// contributions - the beacon node's, or other ones - under B's duty or (nothing in the value check ties the duty slot
+// inside the value to the instance height) under A's duty again. Whatever it is, the post-consensus signatures made
+// for B are over the contributions of exactly that decided value, one each.
+func ZZHarnessContributionTwoDuties() {
+	n := int(zzParam("N"))
+	own := zzCommitteeIDs[n][int(zzParam("OWN"))]
+	role := spectypes.BNRoleSyncCommitteeContribution
+	g := zzNewGRig(n, own, role)
+	members := zzCommitteeIDs[n]
+	q := 2*((n-1)/3) + 1
+	seats := []uint64{1, 3}
+	g.bn.notAggregator = map[byte]bool{}
+	HA := phase0.Slot(3)
+	HB := HA + phase0.Slot(1+31*zzChoose("gap", 2)) // the next slot or a slot of the next epoch (concrete: the runner sorts roots that carry the slot)
+	runDuty := func(H phase0.Slot, value func(d *spectypes.Duty) ([]byte, *spectypes.Contributions)) (*spectypes.Contributions, int) {
+		duty := &spectypes.Duty{Type: role, Slot: H, ValidatorIndex: 7, ValidatorSyncCommitteeIndices: seats}
+		g.bn.contribs = zzMkContribs(H, seats, 0x51)
+		zzContribsMarshal(g.bn.contribs)
+		zzAssume(g.run.StartNewDuty(g.lg, duty) == nil)
+		epoch := spectypes.PraterNetwork.EstimatedEpochAtSlot(H)
+		ds, _ := g.bn.DomainData(epoch, spectypes.DomainSyncCommitteeSelectionProof)
+		selRoots := make([][32]byte, len(seats))
+		for i, seat := range seats {
+			selRoots[i], _ = zzETHSigningRoot(&altair.SyncAggregatorSelectionData{Slot: H, SubcommitteeIndex: seat}, ds)
+		}
+		for i := 0; i < q; i++ {
+			sigs := make([][]byte, len(seats))
+			for j := range seats {
+				sigs[j] = zzSigBy(byte(members[i]), selRoots[j])
+			}
+			zzAssume(g.run.ProcessPreConsensus(g.lg, zzMultiPartial(spectypes.ContributionProofs, H, members[i], sigs, selRoots)) == nil)
+		}
+		zzAssume(g.run.GetBaseRunner().State.RunningInstance != nil)
+		val, cs := value(duty)
+		before := len(g.km.sigs)
+		zzPhase = 2
+		zzAssume(g.run.ProcessConsensus(g.lg, g.decided(specqbft.Height(H), 1, val, q)) == nil)
+		zzPhase = 0
+		return cs, before
+	}
+	var dutyA *spectypes.Duty
+	csA, beforeA := runDuty(HA, func(d *spectypes.Duty) ([]byte, *spectypes.Contributions) {
+		dutyA = d
+		ssz, _ := zzContribsMarshal(g.bn.contribs)
+		v, _ := zzCDEncode(&spectypes.ConsensusData{Duty: *d, Version: spec.DataVersionPhase0, DataSSZ: ssz})
+		return v, g.bn.contribs
+	})
+	zzAssume(len(g.km.sigs) == beforeA+len(*csA))
+	zzReach("first-duty-signed")
+	csB, beforeB := runDuty(HB, func(d *spectypes.Duty) ([]byte, *spectypes.Contributions) {
+		cs := g.bn.contribs
+		if zzNondetBool("otherContributions") {
+			cs = zzMkContribs(HB, seats, 0x52)
+		}
+		in := *d
+		if zzNondetBool("valueNamesTheEarlierDuty") {
+			in = *dutyA
+			zzReach("value-names-the-earlier-duty")
+		}
+		ssz, _ := zzContribsMarshal(cs)
+		v, _ := zzCDEncode(&spectypes.ConsensusData{Duty: in, Version: spec.DataVersionPhase0, DataSSZ: ssz})
+		return v, cs
+	})
+	newSigs := g.km.sigs[beforeB:]
+	zzAssert(len(newSigs) == len(*csB), "second-duty-one-signature-per-decided-contribution")
+	for j, ev := range newSigs {
+		zzAssert(ev.phase == 2 && j < len(*csB) && zzSignsContribution(ev, (*csB)[j]), "post-consensus-signature-is-over-a-contribution-of-the-value-decided-for-this-duty")
+	}
+	zzReach("end")
+}
